@@ -16,9 +16,9 @@ mtask.threading = FAKE_THREADING   # Timer captured for the life of this worker;
 class PGateway:
     """One gateway lifetime on a persistence file."""
 
-    def __init__(self, flavour, version, path, mqtt=False):
+    def __init__(self, flavour, version, path, mqtt=False, with_callback=True):
         self.flavour = flavour
-        self.eng = Engine(flavour, version, mqtt=mqtt, persistence_file=path)
+        self.eng = Engine(flavour, version, mqtt=mqtt, persistence_file=path, with_callback=with_callback)
         self.gw = self.eng.gw
         self.loop = VLoop() if flavour == "async" else None
         self.tick_errors = []
@@ -83,7 +83,8 @@ def run_persist_history(cfg, steps, path):
     flavour, version = cfg["flavour"], cfg["version"]
     out = {"idresp": [], "restarts": [], "crashed": None, "ticks": 0, "lifetimes": 1, "tick_errors": [], "transient_after_load": [], "stop_errors": []}
     handed = set()
-    pg = PGateway(flavour, version, path)
+    wcb = cfg.get("callback", True)
+    pg = PGateway(flavour, version, path, with_callback=wcb)
     pg.start()
     try:
         for idx, st in enumerate(steps):
@@ -120,7 +121,7 @@ def run_persist_history(cfg, steps, path):
                         t.cancel()
                 out["tick_errors"] += [repr(e) for e in pg.tick_errors]
                 pg.close()
-                pg = PGateway(flavour, version, path)
+                pg = PGateway(flavour, version, path, with_callback=wcb)
                 pg.start()
                 after = projection(pg.gw.sensors)
                 out["restarts"].append((before, after, idx))
